@@ -1084,13 +1084,16 @@ impl QueryRouter {
                 }
 
                 Expr::Value(Value::Placeholder(placeholder)) => {
-                    match placeholder.replace('$', "").parse::<i16>() {
-                        Ok(placeholder) => result.push(ShardingKey::Placeholder(placeholder)),
-                        Err(_) => {
-                            debug!(
-                                "Prepared statement didn't have integer placeholders: {}",
-                                placeholder
-                            );
+                    // Only a placeholder compared with the sharding key column selects a shard.
+                    if found {
+                        match placeholder.replace('$', "").parse::<i16>() {
+                            Ok(placeholder) => result.push(ShardingKey::Placeholder(placeholder)),
+                            Err(_) => {
+                                debug!(
+                                    "Prepared statement didn't have integer placeholders: {}",
+                                    placeholder
+                                );
+                            }
                         }
                     }
                 }
